@@ -70,6 +70,9 @@ fn str_len(rng: &mut Rng, big: bool) -> usize {
 pub const TRICKY: &[&str] = &[
     "\\x41", "C:\\x64\\driver.inf", "a\\xFFb", "\\u0041", "\\n", "\\", "\\\\", "%41", "&amp;", "<a>", "\"", "\"\"", "'", "\"utf-8\"", "\u{85}", "\u{9f}x", "\u{80}",
     "a\0", "\0", " 2", "2 ", "true ", " false", "\t1", "1\n", "null", "NaN", "-0", "+5", "0x10", "1e3", "\u{feff}bom", "\u{2028}", "\u{7f}",
+    // URI-shaped strings whose delimiters come in an unusual order or number (code that slices around "://", '@', ':' or '?')
+    "a@b://c", "@://", "://", "://@", "mailto:operator@example.com?body=see%20http://printer.local/", "ipp://u:p@h/", "ipp://@h", "ipp://h:/", "ipp://[::1", "ipp:///p",
+    "http://a@b@c/", "x:y:z", "a?b?c", "a#b#", "//", "/", ":", "@", "?", "#", "[", "]", "%", "%%", "%4", "%zz", "ipp://h/%", "a=b=c", "a,b,,", "; ", "utf-8;q=1", "text/plain; charset=\"x\"",
 ];
 
 pub fn gen_string(rng: &mut Rng, big: bool) -> String {
@@ -442,6 +445,22 @@ pub fn shapes() -> Vec<Model> {
         m.insert("two".to_string(), MVal::Set(vec![MVal::Integer(5), r.clone()]));
         m.insert("zz-after".to_string(), MVal::Boolean(true));
         out.push(msg1(vec![g(1, vec![("c", MVal::Coll(m))])], vec![]));
+    }
+    // declared charsets other than utf-8 next to non-ASCII text in every string syntax (the library is charset-agnostic: what
+    // was encoded must come back whatever attributes-charset / attributes-natural-language say)
+    for cs in ["iso-8859-1", "ISO-8859-1", "us-ascii", "latin1", "utf-16", "windows-1252", "Shift_JIS", ""] {
+        for lang in ["en", "de-DE", "fr_CA", ""] {
+            let t = |tag: u8, s: &str| MVal::Text { tag, s: s.to_string() };
+            let mut m = BTreeMap::new();
+            m.insert("mt".to_string(), t(0x41, "membre \u{e9}t\u{e9}"));
+            out.push(msg1(
+                vec![
+                    g(1, vec![("attributes-charset", t(0x47, cs)), ("attributes-natural-language", t(0x48, lang)), ("t", t(0x41, "B\u{fc}ro")), ("n", t(0x42, "caf\u{e9}")), ("k", t(0x44, "gr\u{fc}n")), ("u", t(0x45, "ipp://h/\u{e9}"))]),
+                    g(2, vec![("t2", t(0x41, "\u{20ac} 5")), ("set", MVal::Set(vec![t(0x42, "\u{e4}"), t(0x41, "\u{f6}")])), ("wl", MVal::WithLang { tag: 0x35, lang: "de".into(), s: "stra\u{df}e".into() }), ("c", MVal::Coll(m))]),
+                ],
+                vec![],
+            ));
+        }
     }
     // set of collections; set mixing collections and scalars
     let c1 = chain(1, MVal::Integer(1), "x");
